@@ -7,7 +7,14 @@ PROP = dict(
         "grow: the charts of M3d.Param.planeGraphs (the state machine charts_partition / boundary_refcount_invariant / "
         "growth_keeps_disc_partial / growth_keeps_boundary_simple are about) must equal the real nextMeshPlaneGraphs' charts; "
         "charts: disc_decider_sound (isDisc on every real chart) + partition; bseq: boundarySeq model; "
-        "system: floaterRow/floaterSystem (floater_row_convex_comb) in exact arithmetic; param/atlas: uvValid_sound "
+        "system: floaterRow/floaterSystem (floater_row_convex_comb) in exact arithmetic, and floater_operator_is_the_system "
+        "(component k of matrix.Apply on the SparseMatrix built by floater97's Set calls IS row k of floaterSystem, for every "
+        "valence) + floater_solution_is_weighted_mean (a solution of that operator equation puts every interior vertex at the "
+        "weighted mean of all its neighbours); sparse: sparse_rows_independent / sparse_apply_is_matrix_product / sparse_apply_linear / "
+        "sparse_transpose_permute (the model SM the real numerical.SparseMatrix must EQUAL: exact rationals on dyadic data, bit "
+        "for bit at Float); cg: the model M3d.CG of BiCGSTAB / SolveLinearSystem must EQUAL the real solver bit for bit "
+        "(bicgstab_residual_invariant: tracked residual = true residual, terminate flag => exact solution; "
+        "bicgstab_solver_returns_an_iterate); param/atlas: uvValid_sound "
         "(+ weighted-mean residual, validation); circle: runSums/arcParams (arc_params_increasing; libm, near); pack: buildQT/joined/toBounds (quadtree_cells_disjoint_in_unit, "
         "to_bounds_affine) in exact arithmetic; mapfn: bary2/atBary3 (mapfn_barycentric_roundtrip); "
         "hist: floater_history_keeps_boundary (every solve of a history over ONE boundary map leaves that map unchanged and "
@@ -33,7 +40,16 @@ PROP = dict(
         "unions; per mesh one real operation (growth with random integer priorities / size / area limits, "
         "MeshToPlaneGraphs[Limited], SplitPlaneGraph, boundarySequence, Floater97 / StretchMinimizingParameterization over "
         "Circle / PNorm / lattice-polygon boundaries with uniform / chord / shape-preserving / dyadic weights, "
-        "BuildAutomaticUVMap, PackMeshUVMaps on dyadic charts, MapFn at dyadic barycentric points incl. shared edges); "
+        "BuildAutomaticUVMap, PackMeshUVMaps on dyadic charts, MapFn at dyadic barycentric points incl. shared edges, on grids "
+        "with legs from 1 down to 2^-18 next to a coarse chart); meshes with high-valence vertices in every pool: latitude / "
+        "longitude spheres, wheels and cylinders with 3..32 slices / spokes / sides, and hub discs (wheel over a random height "
+        "profile, dome, cylinder without a cap; for the recorded exact system also punctured latitude / longitude spheres and "
+        "spindles) whose hub has 16..32 interior neighbours - rows of the Floater system with 17..33 entries - in a third of "
+        "the system cases and a quarter of the param / hist / ext cases; numerical.SparseMatrix on its own: random Set "
+        "sequences on distinct positions (n <= 48, rows empty / short / full, filled row by row, in random row order, round "
+        "robin, or fully interleaved), Apply after a prefix and after all calls, ApplyVec2, Iterate, Transpose, Permute; "
+        "BiCGSTABSolver.SolveLinearSystem and BiCGSTAB.Iter on Floater-like, diagonally dominant, scaled-permutation, singular "
+        "and random systems with zero right-hand sides, exact / random initial guesses, iteration budgets and tolerances; "
         "histories of 2..4 solves (Floater97 / StretchMinimizingParameterization; uniform / inverse chord / shape-preserving / "
         "random dyadic weights) that share ONE boundary CoordMap, with the boundary map recorded after every solve; UV layouts of "
         "up to four separate blocks of right isosceles triangles with power-of-two legs (holes, ragged borders) queried at "
@@ -59,8 +75,16 @@ PROP = dict(
         "that the boundary of a grown chart stays ONE cycle is derived from chi = 1 + connectedness (classification of "
         "surfaces, not formalised); proved: Euler characteristic of a step, no pinch is created, and the proved decider "
         "isDisc is run on every real chart",
-        "the iterative solver (BiCGSTAB) and stretch minimisation are numerical: the weighted-mean equation is checked "
-        "on the solver output with tolerance 1e-6 (validation); CircleBoundary/PNormBoundary use libm",
+        "the iterative solver BiCGSTAB is modelled (M3d/Model/ParamCG.lean, compared bit for bit: kind cg) and its exactness "
+        "invariant is proved over every vector space; its CONVERGENCE in floating point is not (the method can break down), and "
+        "stretch minimisation is numerical: the weighted-mean equation is checked on the solver output with tolerance 1e-6 "
+        "(validation); CircleBoundary/PNormBoundary use libm",
+        "modelled, not verified: Go slices of numerical.SparseMatrix as lists (a row is a value: append on one row cannot reach "
+        "the storage of another - exactly what the sparse kind compares with the real code for rows of up to 48 entries in four "
+        "fill orders); Vec.Add/Sub/Scale/Dot/Norm as list folds in the order of the Go loops; the BiCGSTAB theorems are about the "
+        "generic model M3d.CG instantiated with the operations of a vector space and a linear operator, the executed instance "
+        "uses the list operations (that lists of length n under zipWith / map are K^n is not stated as a theorem; "
+        "sparse_apply_linear gives the linearity of matrix.Apply on lists)",
         "regenerated too: Coord.SquaredDist, Coord.Dot, Rect.Contains and the clamp c.Min(max).Max(min) (building blocks of "
         "Triangle.genericSDF / Rect.genericSDF, which write through pointers and are outside the translated subset) are tied to "
         "dist2 / dot2 / rectContains / clamp1 of the nearest-triangle model",
@@ -84,12 +108,15 @@ PROP = dict(
         "input meshes are manifold (possibly with boundary), without repeated or degenerate faces; NaN/Inf excluded",
         "Floater weights are non-negative and sum to 1 per interior vertex (Go panics otherwise, up to 1e-4)",
         "charts passed to PackMeshUVMaps have positive 3-D area and a non-degenerate UV bounding box",
+        "numerical.SparseMatrix: every (row, col) position is Set at most once (documented: 'the entry should not already be "
+        "set'), indices inside the matrix, vectors as long as the matrix; BiCGSTABSolver with MaxIters > 0",
         "the texture resolution passed to BuildAutomaticUVMap is large enough for the number of charts: every quad-tree "
         "cell is wider than its two borders (otherwise ToBounds panics or flattens the chart - behaviour the pack kind "
         "compares exactly); spiked / long-cone inputs are run with resolution >= 256",
         "Floater97 / StretchMinimizingParameterization called directly: the exact solution's UV triangles are larger than the "
         "resolution of the iterative solver (default MSE tolerance 1e-16): discs with a scale ratio >= 1e3 inside one chart or "
-        "many rings between boundary and interior are only fed to BuildAutomaticUVMap, which (since fix 6c979e5) detects "
+        "many rings between boundary and interior (also a closed surface minus one triangle, whose far side is squeezed below "
+        "that resolution: such discs go to the recorded exact system kind only) are only fed to BuildAutomaticUVMap, which (since fix 6c979e5) detects "
         "flipped / zero-area UV triangles and splits such discs",
         "ExtendBoundaryUVs: the boundary map is a convex polygon with the origin on the inner side of both boundary edges at every "
         "ear apex ('centered around the origin', the documented precondition; either sense of rotation) and the map is a valid "
@@ -100,7 +127,12 @@ PROP = dict(
         "and the outer loop terminates; the tracked segment set / vertex reference counts are exactly the boundary of "
         "the chart after every step; a step that passes wouldDivideBoundary keeps V-E+F (+1 when the chart closes into "
         "a sphere) and never creates a pinched boundary vertex; a solution of a Floater row is the convex combination "
-        "(weighted mean) of the neighbours, lies in their hull, and the maximum is attained on the boundary; quad-tree "
+        "(weighted mean) of the neighbours, lies in their hull, and the maximum is attained on the boundary; a SparseMatrix row "
+        "holds exactly what was Set in it whatever the order and the row lengths, Apply is A.x, Transpose / Permute are the "
+        "transposed / permuted matrix, the operator floater97 hands to the solver is the system of the mesh for every valence, so a "
+        "solution of it places every interior vertex at the weighted mean of all its neighbours; BiCGSTAB's tracked residual is the "
+        "true residual after every iteration and its terminate flag means an exact solution, and SolveLinearSystem returns an "
+        "iterate that passed the tolerance test on the true residual when it leaves early; quad-tree "
         "cells are interior-disjoint and inside the root, borders shrink them inward, ToBounds is an affine bijection "
         "onto the cell; Barycentric/AtBarycentric round-trip; soundness of the UV validity checker and of the disc "
         "decider; a history of solves over one boundary map never changes that map and every result extends it; the "
@@ -112,7 +144,9 @@ PROP = dict(
         "ExtendBoundaryUVs writes nothing but ear apexes, moves an apex straight away from its opposite edge by at most maxDist "
         "(orientation kept, ear less flat) for clockwise and counter-clockwise maps around the origin alike, and commutes with every "
         "rotation / reflection about the origin. Tie: the real code is run on generated manifolds and compared with the models (exact for growth, "
-        "system assembly, packing, MapFn on dyadic data inside and outside the triangles, the tri2dLookup search), "
+        "system assembly incl. discs with hubs of valence up to 32, the sparse matrix, packing, MapFn on dyadic data inside and "
+        "outside the triangles down to UV areas of 2^-37, the tri2dLookup search; bit for bit for the sparse matrix and the "
+        "BiCGSTAB solver at Float), "
         "histories of solves, atlas covers and the maps before / after ExtendBoundaryUVs (on mirrored and rotated parameterisations too; "
         "its model also bit for bit) are compared with what the theorems demand, and the proved deciders are run on every real chart and "
         "every real UV layout in exact arithmetic."
